@@ -420,7 +420,7 @@ func (e *CoreExtension) filterDate(value interface{}, args ...interface{}) (inte
 			} else {
 				// Try to parse as integer timestamp first
 				if timestamp, err := strconv.ParseInt(v, 10, 64); err == nil {
-					dt = time.Unix(timestamp, 0)
+					dt = time.Unix(timestamp, 0).UTC() // like a date string without zone: not the host's local zone
 				} else {
 					// Try to parse as string using common formats
 					var err error
@@ -459,21 +459,21 @@ func (e *CoreExtension) filterDate(value interface{}, args ...interface{}) (inte
 			if v == 0 {
 				dt = time.Now()
 			} else {
-				dt = time.Unix(v, 0)
+				dt = time.Unix(v, 0).UTC()
 			}
 		case int:
 			// Handle 0 timestamp
 			if v == 0 {
 				dt = time.Now()
 			} else {
-				dt = time.Unix(int64(v), 0)
+				dt = time.Unix(int64(v), 0).UTC()
 			}
 		case float64:
 			// Handle 0 timestamp
 			if v == 0 {
 				dt = time.Now()
 			} else {
-				dt = time.Unix(int64(v), 0)
+				dt = time.Unix(int64(v), 0).UTC()
 			}
 		default:
 			// For unknown types, use current time
